@@ -757,7 +757,7 @@ def line_to_cases(ctx, l, idx):
     out = []
     killed = want[0] == "nonzero"
     routes = ["compiled", "hash"]
-    mage_share = 0.18 if ctx.quick else 0.5
+    mage_share = 0.12 if ctx.quick else 0.5
     if rng.random() < (0.5 if l["fail"] in ("unknown", "missing", "badarg") else mage_share) or l.get("routes") == "all":
         routes.append("mage")
     if killed:
